@@ -135,28 +135,34 @@ theorem lv_not_special (gs : Path) (r : List String) (n : Nat) (h : n < r.length
   have h3 : lv gs r (n + 1) ≠ [""] := by intro h0; rw [h0] at hlen; simp at hlen
   simp [h1, h2, h3]
 
+theorem W_fileStops : W.vendorFileStops = false := rfl
+theorem kind_fd : (Kind.file == Kind.dir) = false := by decide
+theorem kind_fi : (Kind.file == Kind.invalid) = false := by decide
+theorem kind_nd : (Kind.none == Kind.dir) = false := by decide
+theorem kind_ni : (Kind.none == Kind.invalid) = false := by decide
+theorem kind_nf : (Kind.none == Kind.file) = false := by decide
+
 /-- the `for` loop of previousRoot started at level `n+1`: it stops at the nearest level `k ≥ 1` with a
-    `vendor` directory, or finds none down to level 1 -/
+    `vendor` directory, or finds none down to level 1 (a regular file named vendor is no directory) -/
 theorem prevLoop_levels (f : FS) (gs : Path) (r : List String) (hg : goodPath gs = true)
     (hm : f.mapfs = true → NormRel gs = true) (hr : NormRel r = true) :
     ∀ n fuel, n + 2 ≤ fuel → n + 1 ≤ r.length →
-      (∀ i, 1 ≤ i → i ≤ n + 1 → f.stat (vd gs r i) ≠ .file) →
       (∃ k, 1 ≤ k ∧ k ≤ n + 1 ∧ prevLoop W f gs fuel (lv gs r (n + 1)) = .vendored (lv gs r k) ∧
           ∀ i, k < i → i ≤ n + 1 → f.stat (vd gs r i) ≠ .dir)
       ∨ (prevLoop W f gs fuel (lv gs r (n + 1)) = .notFound ∧ ∀ i, 1 ≤ i → i ≤ n + 1 → f.stat (vd gs r i) ≠ .dir) := by
   intro n
   induction n with
   | zero =>
-    intro fuel hfuel hlen hfile
+    intro fuel hfuel hlen
     obtain ⟨fuel', rfl⟩ : ∃ k, fuel = k + 1 := ⟨fuel - 1, by omega⟩
     unfold prevLoop
     rw [join_vendor gs r 1 hg hr]
     cases hst : f.stat (vd gs r 1) with
-    | dir => left; exact ⟨1, by omega, by omega, rfl, by intro i h1 h2; omega⟩
-    | file => exact absurd hst (hfile 1 (by omega) (by omega))
+    | dir => left; exact ⟨1, by omega, by omega, by simp, by intro i h1 h2; omega⟩
     | invalid => exact absurd hst (stat_ne_invalid f _ (nameOK_vd f gs r 1 hm hg hr))
-    | none =>
+    | file | none =>
       right
+      simp only [W_fileStops, kind_fd, kind_fi, kind_nd, kind_ni, kind_nf, Bool.and_false, Bool.false_eq_true, if_false]
       have h1 : (lv gs r (0 + 1) == gs) = false := by
         have := lv_ne_gs gs r 0 (by omega); simpa using this
       have h2 : dir (lv gs r (0 + 1)) = gs := by
@@ -166,15 +172,15 @@ theorem prevLoop_levels (f : FS) (gs : Path) (r : List String) (hg : goodPath gs
       have : i = 1 := by omega
       subst this; rw [hst]; simp
   | succ n ih =>
-    intro fuel hfuel hlen hfile
+    intro fuel hfuel hlen
     obtain ⟨fuel', rfl⟩ : ∃ k, fuel = k + 1 := ⟨fuel - 1, by omega⟩
     unfold prevLoop
     rw [join_vendor gs r (n + 1 + 1) hg hr]
     cases hst : f.stat (vd gs r (n + 1 + 1)) with
-    | dir => left; exact ⟨n + 1 + 1, by omega, by omega, rfl, by intro i h1 h2; omega⟩
-    | file => exact absurd hst (hfile _ (by omega) (by omega))
+    | dir => left; exact ⟨n + 1 + 1, by omega, by omega, by simp, by intro i h1 h2; omega⟩
     | invalid => exact absurd hst (stat_ne_invalid f _ (nameOK_vd f gs r _ hm hg hr))
-    | none =>
+    | file | none =>
+      simp only [W_fileStops, kind_fd, kind_fi, kind_nd, kind_ni, kind_nf, Bool.and_false, Bool.false_eq_true, if_false]
       have h1 : (lv gs r (n + 1 + 1) == gs) = false := by
         have := lv_ne_gs gs r (n + 1) (by omega); simpa using this
       have h2 : dir (lv gs r (n + 1 + 1)) = lv gs r (n + 1) := by
@@ -183,7 +189,7 @@ theorem prevLoop_levels (f : FS) (gs : Path) (r : List String) (hg : goodPath gs
         have := lv_ne_gs gs r n (by omega); simpa using this
       have h4 := lv_not_special gs r n (by omega) hg hr
       simp only [h1, h2, h3, h4, Bool.false_eq_true, if_false]
-      rcases ih fuel' (by omega) (by omega) (fun i a b => hfile i a (by omega)) with ⟨k, hk1, hk2, hk3, hk4⟩ | ⟨hn1, hn2⟩
+      rcases ih fuel' (by omega) (by omega) with ⟨k, hk1, hk2, hk3, hk4⟩ | ⟨hn1, hn2⟩
       · left
         refine ⟨k, hk1, by omega, hk3, ?_⟩
         intro i hi1 hi2
@@ -231,10 +237,9 @@ theorem lastIndexOf_snoc (v : String) (l0 : List String) : lastIndexOf v (l0 ++ 
   unfold lastIndexOf; rw [lastIdxAux_snoc]; omega
 
 /-- **previousRoot shrinks the root, and skips no level that has a vendor directory.**
-    `r`: clean non-empty root below `gs = GOPATH/src`; no regular file named `vendor` in a proper ancestor. -/
+    `r`: clean non-empty root below `gs = GOPATH/src`. -/
 theorem previousRoot_levels (f : FS) (gs : Path) (r : List String) (hg : goodPath gs = true)
-    (hm : f.mapfs = true → NormRel gs = true) (hr : NormRel r = true) (hne : r ≠ [])
-    (hfile : ∀ i, 1 ≤ i → i < r.length → f.stat (vd gs r i) ≠ .file) :
+    (hm : f.mapfs = true → NormRel gs = true) (hr : NormRel r = true) (hne : r ≠ []) :
     ∃ k, k < r.length ∧ previousRoot W f (gs ++ r) r = .ok (pathOf (r.take k)) ∧
       ∀ i, k < i → i < r.length → f.stat (vd gs r i) ≠ .dir := by
   obtain ⟨r0, x, rfl⟩ : ∃ r0 x, r = r0 ++ [x] := ⟨r.dropLast, r.getLast hne, (List.dropLast_concat_getLast hne).symm⟩
@@ -280,18 +285,20 @@ theorem previousRoot_levels (f : FS) (gs : Path) (r : List String) (hg : goodPat
       rw [hj]
       cases hst : f.stat (vd gs [x] 0) with
       | dir =>
-        simp only
+        simp only [BEq.rfl, if_true]
         rw [show trimPrefix gs gs = "" :: [] from by
           have := trimPrefix_aligned gs [] hgsne; simpa using this]
         simp [trimSlashPrefix, isEmptyS, hsec]
-      | file => simp [pathOf, emptyS]
       | invalid => exact absurd hst (stat_ne_invalid f _ (nameOK_vd f gs [x] 0 hm hg hr))
-      | none => simp [hsec]
+      | file | none =>
+        simp only [W_fileStops, kind_fd, kind_fi, kind_nd, kind_ni, kind_nf, Bool.and_false, Bool.false_eq_true, if_false,
+          BEq.rfl, if_true]
+        exact hsec
     | succ n =>
       have hlen : (r0 ++ [x]).length = n + 2 := by simp [hr0l]
       rw [hpar, hr0l]
       rcases prevLoop_levels f gs (r0 ++ [x]) hg hm hr n ((lv gs (r0 ++ [x]) (n + 1)).length + 2)
-          (by simp [lv]; omega) (by omega) (fun i a b => hfile i a (by omega)) with ⟨k, hk1, hk2, hk3, hk4⟩ | ⟨hn1, hn2⟩
+          (by simp [lv]; omega) (by omega) with ⟨k, hk1, hk2, hk3, hk4⟩ | ⟨hn1, hn2⟩
       · rw [hk3]
         simp only
         have htk : (r0 ++ [x]).take k ≠ [] := by
